@@ -47,7 +47,7 @@ META = {
                     'does not have, so only "never blocks" (I1) and "heals" (I5) are asserted after them',
                     'after a crash a file holds the old content, the new content or an unloadable prefix (the '
                     'SimFS flushes what was written before the kill)'],
-    'probe_names': ['pauxdirs_main_run', 'pauxdirs_same_job_name', 'pauxdirs_damaged_part', 'document_without_labels', 'common_label_saved', 'crash_between_truncate_and_write', 'crash_mid_write', 'crash_in_readback', 'crash_in_render',
+    'probe_names': ['pauxdirs_from_config_file', 'pauxdirs_main_run', 'pauxdirs_same_job_name', 'pauxdirs_damaged_part', 'document_without_labels', 'common_label_saved', 'crash_between_truncate_and_write', 'crash_mid_write', 'crash_in_readback', 'crash_in_render',
                     'crash_before_paux', 'crash_after_save', 'loads_to_nondict', 'dict_without_renderer', 'edited_owner',
                     'healed_after_fault', 'cross_ref_resolved', 'other_block_preserved', 'xr_reader_used',
                     'corrupt_file_read', 'partial_restore_after_bad_entry', 'save_failed_run_continued', 'ioerr_open_r', 'ioerr_write', 'ioerr_open_w'],
@@ -288,6 +288,8 @@ def job(args, fs):
     plasTeX.Compile.run.__globals__['parse'] = parse
     Context.persist = persist
     argv = []
+    if args.get('config_file'):
+        argv += ['--config', args['config_file']]
     if args.get('paux_dirs'):
         argv += ['--paux-dirs'] + list(args['paux_dirs'])       # (list-valued: before the other options, the file name comes last)
     argv += ['--renderer', args['renderer'], '--imager', 'none', '--vector-imager', 'none']
@@ -1145,6 +1147,12 @@ def pauxdirs_cases(base_seed, tier):
                 out.append({'property': PID, 'seed': core.h64('C20-pauxdirs', ni, di, R),
                             'swarm': {'pauxdirs': True, 'renderer': R, 'names': list(names)},
                             'ops': [{'op': 'PD', 'damage': list(dmg) if dmg else None}]})
+    # the same with a directory name that contains a blank, given on the command line and in a configuration file (quoted)
+    for via in ('cli', 'config'):
+        for di, dmg in enumerate(PD_DAMAGE[:2] if tier == 'quick' else PD_DAMAGE):
+            out.append({'property': PID, 'seed': core.h64('C20-pauxdirs-blank', via, di),
+                        'swarm': {'pauxdirs': True, 'renderer': 'HTML5', 'names': ['a', 'b', 'main'], 'dirs': ['part A', 'partB'], 'via': via},
+                        'ops': [{'op': 'PD', 'damage': list(dmg) if dmg else None}]})
     return out
 
 
@@ -1167,13 +1175,18 @@ def execute_pauxdirs(record, res):
     top = os.path.join(root, 'top')
     viol, log, info = [], [], {}
     try:
-        for d in ('partA', 'partB'):
+        dA, dB = sw.get('dirs') or ['partA', 'partB']
+        for d in (dA, dB):
             os.makedirs(os.path.join(top, d))
+        if sw.get('via') == 'config':
+            with open(os.path.join(top, 'pd.cfg'), 'w') as f:
+                f.write('[general]\npaux-dirs = "%s" %s\n' % (dA, dB))
+            info['pauxdirs_from_config_file'] = 1
         labsA = ['pdaL0', 'pdaL1']
         labsB = ['pdbL0', 'pdbL1', 'pdbL2']
-        with open(os.path.join(top, 'partA', na + '.tex'), 'w') as f:
+        with open(os.path.join(top, dA, na + '.tex'), 'w') as f:
             f.write(_pd_source('pda', 2, []))
-        with open(os.path.join(top, 'partB', nb + '.tex'), 'w') as f:
+        with open(os.path.join(top, dB, nb + '.tex'), 'w') as f:
             f.write(_pd_source('pdb', 3, []))
         with open(os.path.join(top, nm + '.tex'), 'w') as f:
             f.write(_pd_source('pdm', 1, labsA + labsB))
@@ -1181,9 +1194,12 @@ def execute_pauxdirs(record, res):
 
         def run(cwd, name, paux_dirs=None):
             setup = {'root': top, 'cwd': cwd, 'clock': clock, 'crash': None, 'env': {'environ': {'HOME': top, 'TEXINPUTS': cwd}}}
-            return lifetimes.run_lifetime(JOB, {'file': name + '.tex', 'renderer': R, 'base_url': '', 'paux_dirs': paux_dirs}, setup, timeout=600)
+            a = {'file': name + '.tex', 'renderer': R, 'base_url': '', 'paux_dirs': paux_dirs}
+            if paux_dirs and sw.get('via') == 'config':
+                a.update(paux_dirs=None, config_file='pd.cfg')
+            return lifetimes.run_lifetime(JOB, a, setup, timeout=600)
         saved = {}
-        for d, name in (('partA', na), ('partB', nb)):
+        for d, name in ((dA, na), (dB, nb)):
             st, out = run(os.path.join(top, d), name)
             if st != 'ok' or not out.get('ok'):
                 viol.append({'sig': 'C20|escape|%s|%s' % (_site(out.get('traceback', '')), out.get('exception')),
@@ -1197,7 +1213,7 @@ def execute_pauxdirs(record, res):
             damaged = None
             if op.get('damage'):
                 kind, which = op['damage']
-                d, name = (('partA', na), ('partB', nb))[which % 2]
+                d, name = ((dA, na), (dB, nb))[which % 2]
                 p = os.path.join(top, d, name + '.paux')
                 data = open(p, 'rb').read()
                 if kind == 'truncate':
@@ -1212,7 +1228,7 @@ def execute_pauxdirs(record, res):
                     open(p, 'wb').write(pickle.dumps({'Other': {'zz': {'ref': '9', 'id': 'zz'}}}))
                 damaged = d
                 info['pauxdirs_damaged_part'] = 1
-            st, out = run(top, nm, paux_dirs=['partA', 'partB'])
+            st, out = run(top, nm, paux_dirs=[dA, dB])
             if st != 'ok' or not out.get('ok'):
                 viol.append({'sig': 'C20|escape|%s|%s' % (_site(out.get('traceback', '')), out.get('exception')),
                              'detail': {'job': 'main', 'damage': op.get('damage'), 'traceback': (out.get('traceback') or '')[-800:]}})
@@ -1222,7 +1238,7 @@ def execute_pauxdirs(record, res):
             info['pauxdirs_main_run'] = 1
             if na == nb:
                 info['pauxdirs_same_job_name'] = 1
-            for d in ('partA', 'partB'):
+            for d in (dA, dB):
                 want = dict((lab, (v['ref'], v['title'], v['url'])) for lab, v in saved[d].items())
                 got = dict((lab, (x['ref'], x['title'], x['url'])) for lab, x in restored.items() if lab in want)
                 if d == damaged:
